@@ -10,6 +10,7 @@
 -/
 import EG.Lemmas.StyledRectDraw
 namespace EG.C01.Rectangle
+open EG.Tgt
 open EG EG.Rect EG.StyledRect
 
 /-- Each trait default (`fill_contiguous`, `fill_solid`, `clear` lowered to `draw_iter`) offers
